@@ -175,12 +175,41 @@ func (s *setSubj[T]) Algebra(otherS Subject, op Op, o *Oracle) bool {
 	return len(ca) > 0 && len(cb) > 0
 }
 
+// ForeignAlgebra combines the subject with a TreeSet ordered by another comparator function, in either
+// position. C13 is about operands of the same comparator, so the result is not judged; but the call is
+// legal, it must leave the operand as it was, and the operand's later same-comparator algebra (judged by
+// Algebra above) must be unaffected by having met a foreign set.
+func (s *setSubj[T]) ForeignAlgebra(op Op, o *Oracle) {
+	o.cur, o.Kind = op, s.cfg.Kind
+	f := s.foreign(s.vals(op.A[2:]))
+	if f == nil {
+		return
+	}
+	obs, fobs := s.ObsJSON(), joinS(f.Values(), s.d.Str)
+	name := algNames[op.A[0]%3]
+	if op.A[1]%2 == 0 {
+		setAlgebra[T](f, s.s, name)
+	} else {
+		setAlgebra[T](s.s, f, name)
+	}
+	o.Unjudged("C13 result of algebra between TreeSets of different comparators")
+	if after := s.ObsJSON(); after != obs {
+		o.Fail("C13", "operand-changed", "%s with a set of another comparator changed the operand:\n before %s\n after  %s", name, obs, after)
+	}
+	if after := joinS(f.Values(), s.d.Str); after != fobs {
+		o.Fail("C13", "operand-changed", "%s with a set of another comparator changed that set: %s -> %s", name, fobs, after)
+	}
+}
+
 type algWorld struct{}
 
 var algNames = []string{"Intersection", "Union", "Difference"}
 
 func (w *algWorld) Gen(seed uint64, tier string) *Plan {
 	r := NewRng(seed)
+	if r.P(1, 600) {
+		return genScale(r, "C13")
+	}
 	cfg := genCfg(r, setKinds, tier)
 	if cfg.Dom > 32 {
 		cfg.Dom = []int{4, 8, 12, 16, 24, 32}[r.Intn(6)]
@@ -241,6 +270,10 @@ func (w *algWorld) Gen(seed uint64, tier string) *Plan {
 			p.Ops = append(p.Ops, op2)
 			id++
 		}
+		if cfg.Kind == "treeset" && r.P(1, 10) {
+			p.Ops = append(p.Ops, Op{ID: id, N: "Foreign", X: r.Intn(2), A: append([]int{r.Intn(3), r.Intn(2)}, genIdxs(r, r.Intn(4), cfg.Dom)...)})
+			id++
+		}
 		if r.P(1, 6) || i == n-1 {
 			k := r.Range(1, 3)
 			for j := 0; j < k; j++ {
@@ -253,6 +286,9 @@ func (w *algWorld) Gen(seed uint64, tier string) *Plan {
 }
 
 func (w *algWorld) Exec(p *Plan, st *RunStats) *Violation {
+	if p.World == "scale" {
+		return execScale(p, st, "C13")
+	}
 	attach(p)
 	start := stepCount
 	a := makeSubject(p.Cfg, false)
@@ -271,6 +307,10 @@ func (w *algWorld) Exec(p *Plan, st *RunStats) *Violation {
 					nonEmpty++
 				}
 			})
+		case "Foreign":
+			safely(o, op, func() {
+				subj[op.X&1].(interface{ ForeignAlgebra(Op, *Oracle) }).ForeignAlgebra(op, o)
+			})
 		default:
 			safely(o, op, func() { subj[op.X&1].Step(op, o) })
 		}
@@ -283,5 +323,6 @@ func (w *algWorld) Exec(p *Plan, st *RunStats) *Violation {
 	}
 	st.Steps = stepCount - start
 	st.NonTrivial = nonEmpty >= 1
+	st.Unjudged = o.Unj
 	return o.V
 }
